@@ -614,3 +614,9 @@ PROPS["C13"]["harnesses"] += [
     # quick, but optional: ~9 min / 10 GB next to the 6-minute lean member; a timeout must not fail the check
     H("c13::walker_chain_9_unknown_last", tier="quick", required=False, bounds="8 data-less optional extensions then an unknown mandatory id (any of the 252 unknown ones)", unwind=12, cost=600, timeout=1500, timeout_t=2400, mem_gb=16),
     H("c13::walker_chain_6_unknown_fifth", tier="thorough", required=False, bounds="6 extensions, the fifth an unknown mandatory id", unwind=12, cost=200, timeout=1800, timeout_t=2400, mem_gb=16)]
+
+# outside-claim statements after the bound extensions of sections 9.9 / 9.10
+PROPS["C13"]["outside"] = ["chains longer than 4 entries at packet level (encap_ext / decap); chains of 5, 6, 9 and 10 entries are covered for the receiver's walker only, by optional members (c13::walker_chain_*); chains longer than 10",
+                           "mandatory data longer than 8 bytes (except the single big mandatory extension of c09::encap_ext_big_mandatory_lattice); PDUs longer than 5..6 bytes on this path"] + PROPS["C13"]["outside"][1:]
+PROPS["C17"]["outside"] = ["memories with more than 3 slots, except their slot-index arithmetic (smt::slot_index: 1..=65536 slots, optional member)"] + PROPS["C17"]["outside"][1:]
+PROPS["C07"]["outside"] = PROPS["C07"]["outside"] + ["more than 2-3 slots, except the slot-index arithmetic (smt::slot_index: ids below the slot count never share a slot, 1..=65536 slots)"]
